@@ -31,6 +31,59 @@ import (
 type realDevice interface {
 	ParseConfig(data []byte, fName string) (deviceconf.Config, error)
 	GetChanges(c1, c2 deviceconf.Config) error
+	ShowChanges() string
+}
+
+// plan runs parse+merge+diff once and returns everything observable:
+// change script, warnings (stderr log) and error/abort status.
+func plan(model, dev, spoc, raw, logFile string) (out string) {
+	os.Remove(logFile)
+	errlog.SetStderrLog(logFile)
+	status := "ok"
+	script := ""
+	func() {
+		defer func() {
+			if r := recover(); r != nil {
+				if fmt.Sprintf("%T", r) == "errlog.bailout" {
+					status = "abort"
+				} else {
+					status = "panic"
+				}
+			}
+		}()
+		d := newDevice(model)
+		c1, err := d.ParseConfig([]byte(dev), "device")
+		if err != nil {
+			status = "error"
+			return
+		}
+		c2, err := d.ParseConfig([]byte(spoc), "netspoc")
+		if err != nil {
+			status = "error"
+			return
+		}
+		if raw != "" {
+			c3, err := d.ParseConfig([]byte(raw), "netspoc.raw")
+			if err != nil {
+				status = "error"
+				return
+			}
+			c2 = c2.MergeSpoc(c3)
+		}
+		if err := d.GetChanges(c1, c2); err != nil {
+			status = "error"
+			return
+		}
+		script = d.ShowChanges()
+	}()
+	warn, _ := os.ReadFile(logFile)
+	var wl []string
+	for _, l := range strings.Split(string(warn), "\n") {
+		if strings.HasPrefix(l, "WARNING>>>") {
+			wl = append(wl, l)
+		}
+	}
+	return status + "\n" + strings.Join(wl, "\n") + "\n" + script
 }
 
 func newDevice(model string) realDevice {
@@ -366,7 +419,55 @@ func main() {
 	maxCases := flag.Int("maxcases", 0, "limit number of test cases (0 = all)")
 	only := flag.String("model", "", "restrict to one model")
 	replay := flag.String("replay", "", "replay one finding (JSON file with model/device/netspoc/raw): exit 0 if it panics")
+	determinism := flag.Int("determinism", 0, "C16: plan every test case N times and compare script, warnings and status")
+	extra := flag.String("extra", "", "C16: directory with extra MODEL_name.device / .netspoc pairs")
 	flag.Parse()
+	if *determinism > 0 {
+		tmp, _ := os.MkdirTemp("", "fuzzdet")
+		defer os.RemoveAll(tmp)
+		logFile := filepath.Join(tmp, "log")
+		cases := loadCases(*dir)
+		if *extra != "" {
+			devs, _ := filepath.Glob(filepath.Join(*extra, "*.device"))
+			for _, d := range devs {
+				base := strings.TrimSuffix(d, ".device")
+				dv, _ := os.ReadFile(d)
+				sp, _ := os.ReadFile(base + ".netspoc")
+				model := map[string]string{"asa": "ASA", "ios": "IOS", "linux": "Linux", "nsx": "NSX", "panos": "PAN-OS"}[strings.SplitN(filepath.Base(base), "_", 2)[0]]
+				cases = append(cases, testCase{model: model, dev: string(dv), spoc: string(sp)})
+			}
+		}
+		type nd struct {
+			Model, Device, Netspoc, Raw string
+			Outputs                     []string
+		}
+		var bad []nd
+		runs := 0
+		for _, c := range cases {
+			first := plan(c.model, c.dev, c.spoc, c.raw, logFile)
+			runs++
+			outs := map[string]bool{first: true}
+			for i := 1; i < *determinism; i++ {
+				outs[plan(c.model, c.dev, c.spoc, c.raw, logFile)] = true
+				runs++
+			}
+			if len(outs) > 1 {
+				var l []string
+				for o := range outs {
+					l = append(l, o)
+				}
+				sort.Strings(l)
+				bad = append(bad, nd{c.model, c.dev, c.spoc, c.raw, l})
+			}
+		}
+		res := map[string]any{"cases": len(cases), "runs": runs, "nondeterministic": bad}
+		data, _ := json.MarshalIndent(res, "", " ")
+		if *out != "" {
+			os.WriteFile(*out, data, 0644)
+		}
+		fmt.Printf("cases=%d runs=%d nondeterministic=%d\n", len(cases), runs, len(bad))
+		return
+	}
 	if *replay != "" {
 		data, err := os.ReadFile(*replay)
 		if err != nil {
